@@ -2024,6 +2024,10 @@ void eval_instruction (const char *p) {
             arr = sp->u.arr;
             if (i >= arr->size)
               error ("*Class has no corresponding member.");
+            /* the lvalue points into the class: a temporary that only the stack
+             * refers to would be freed below and leave the lvalue dangling */
+            if (arr->ref == 1)
+              error ("*Illegal to make member lvalue from a temporary class value.");
             sp->type = T_LVALUE;
             sp->u.lvalue = arr->item + i;
             free_class (arr);
